@@ -233,8 +233,17 @@ fn alphabet(rng: &mut Rng) -> Vec<&'static str> {
     a
 }
 
+thread_local! {
+    /// `large` lane: size multipliers (sequences per case, words per sequence, characters per
+    /// word); one of the three carries the multiplier of the case, the others stay 1
+    static DIMS: std::cell::Cell<(usize, usize, usize)> = const { std::cell::Cell::new((1, 1, 1)) };
+}
+fn dims() -> (usize, usize, usize) {
+    DIMS.with(|d| d.get())
+}
+
 fn gen_word(rng: &mut Rng, alpha: &[&str], max_len: usize) -> String {
-    let n = 1 + len_geo(rng, 1.2, max_len.saturating_sub(1));
+    let n = 1 + gen::with_scale(dims().2, || len_geo(rng, 1.2, max_len.saturating_sub(1)));
     (0..n).map(|_| *alpha.choose(rng).unwrap_or(&"a")).collect()
 }
 
@@ -338,7 +347,7 @@ fn n_sequences(rng: &mut Rng) -> usize {
     if rng.random_range(0..100) < 6 {
         0
     } else {
-        1 + len_geo(rng, 2.0, 5)
+        1 + gen::with_scale(dims().0, || len_geo(rng, 2.0, 5))
     }
 }
 
@@ -358,7 +367,7 @@ fn gen_spelling(rng: &mut Rng, calibrated: bool) -> (Vec<String>, Vec<String>, V
     };
     let (mut input, mut pred, mut target) = (vec![], vec![], vec![]);
     for _ in 0..n {
-        let nt = len_geo(rng, 3.0, 7);
+        let nt = gen::with_scale(dims().1, || len_geo(rng, 3.0, 7));
         let tw: Vec<String> = (0..nt).map(|_| gen_word(rng, &alpha, 4)).collect();
         let iw: Vec<String> = match rng.random_range(0..100) {
             0..=54 => perturb(rng, &alpha, &tw, 0.35),
@@ -386,7 +395,7 @@ fn gen_spelling(rng: &mut Rng, calibrated: bool) -> (Vec<String>, Vec<String>, V
                 65..=74 => tw.clone(),
                 75..=84 => iw.clone(),
                 _ => {
-                    let k = len_geo(rng, 3.0, 7);
+                    let k = gen::with_scale(dims().1, || len_geo(rng, 3.0, 7));
                     (0..k).map(|_| gen_word(rng, &alpha, 4)).collect()
                 }
             }
@@ -469,7 +478,7 @@ fn gen_whitespace(rng: &mut Rng) -> (Vec<String>, Vec<String>, Vec<String>, &'st
     let n = n_sequences(rng);
     let (mut input, mut pred, mut target) = (vec![], vec![], vec![]);
     for _ in 0..n {
-        let m = len_geo(rng, 5.0, 12);
+        let m = gen::with_scale(dims().1.max(dims().2), || len_geo(rng, 5.0, 12));
         let chars: Vec<&str> = (0..m).map(|_| *alpha.choose(rng).unwrap_or(&"a")).collect();
         let (i, p, t) = respace_triple(rng, &chars);
         input.push(dirty_text(rng, i));
@@ -494,13 +503,13 @@ fn tot_string(rng: &mut Rng) -> String {
     if rng.random_range(0..100) < 8 {
         return TOT_EXTRA.choose(rng).copied().unwrap_or("").to_string();
     }
-    let k = rng.random_range(0..=4);
+    let k = rng.random_range(0..=4 * dims().1.max(dims().2));
     (0..k).map(|_| *TOT_TOKENS.choose(rng).unwrap_or(&"a")).collect()
 }
 
 /// tiny strings over {a,b,ab,ba,␠,␠␠}*: word-less sides, whitespace-only strings, empty lists
 fn gen_totality(rng: &mut Rng) -> (Vec<String>, Vec<String>, Vec<String>, &'static str) {
-    let n = if rng.random_range(0..100) < 8 { 0 } else { rng.random_range(1..=4) };
+    let n = if rng.random_range(0..100) < 8 { 0 } else { rng.random_range(1..=4 * dims().0) };
     let relation = rng.random_range(0..100);
     let (mut input, mut pred, mut target) = (vec![], vec![], vec![]);
     for _ in 0..n {
@@ -529,7 +538,7 @@ fn wild_string(rng: &mut Rng) -> String {
         5..=7 => Flavor::Texty,
         _ => Flavor::Tiny,
     };
-    let mut s = gen::ustring(rng, fl, 24);
+    let mut s = gen::with_scale(dims().1.max(dims().2).min(50), || gen::ustring(rng, fl, 24));
     // sprinkle characters whose NFKC form contains spaces / several letters
     while rng.random_bool(0.25) {
         let cs = chars_of(&s, false);
@@ -542,7 +551,7 @@ fn wild_string(rng: &mut Rng) -> String {
 
 /// arbitrary Unicode: independent strings, or re-spacings / word noise on one wild base text
 fn gen_robust(rng: &mut Rng) -> (Vec<String>, Vec<String>, Vec<String>, &'static str) {
-    let n = if rng.random_range(0..100) < 5 { 0 } else { 1 + len_geo(rng, 1.5, 4) };
+    let n = if rng.random_range(0..100) < 5 { 0 } else { 1 + gen::with_scale(dims().0, || len_geo(rng, 1.5, 4)) };
     let relation = rng.random_range(0..100);
     let class = match relation {
         0..=34 => "robust-independent",
@@ -585,6 +594,45 @@ fn gen_robust(rng: &mut Rng) -> (Vec<String>, Vec<String>, Vec<String>, &'static
     (input, pred, target, class)
 }
 
+/// `large` lane: 1-2 sequences in which exactly one of input / prediction / target has
+/// 66 000 - 70 000 characters and the other two are empty or a few words (the matrices of the
+/// metrics stay small, the distances exceed 2^16)
+fn gen_long_vs_short(rng: &mut Rng) -> (Vec<String>, Vec<String>, Vec<String>, &'static str) {
+    DIMS.with(|d| d.set((1, 1, 1)));
+    // ascii only: the repo's character lookup is linear in the number of runs of equal byte
+    // width, which makes the spelling metric quadratic on long mixed-width strings
+    let _ = alphabet(rng);
+    let alpha = vec!["a", "b", "c"];
+    let n = rng.random_range(1..=2);
+    let (mut input, mut pred, mut target) = (vec![], vec![], vec![]);
+    for _ in 0..n {
+        let total = rng.random_range(66_000..=70_000);
+        let mut long = String::new();
+        let mut chars = 0usize;
+        while chars < total {
+            // few very long words: the repo's spelling metric is quadratic in the number of words
+            let wl = rng.random_range(2_000..=9_000);
+            let w: String = (0..wl).map(|_| *alpha.choose(rng).unwrap_or(&"a")).collect();
+            chars += chars_of(&w, true).len() + 1;
+            if !long.is_empty() {
+                long.push(' ');
+            }
+            long.push_str(&w);
+        }
+        let short = |rng: &mut Rng| -> String {
+            let k = rng.random_range(0..=3);
+            (0..k).map(|_| gen_word(rng, &alpha, 4)).collect::<Vec<_>>().join(" ")
+        };
+        let mut v = [short(rng), short(rng), short(rng)];
+        v[rng.random_range(0..3)] = long;
+        let [i, p, t] = v;
+        input.push(i);
+        pred.push(p);
+        target.push(t);
+    }
+    (input, pred, target, "long-vs-short")
+}
+
 /// list with one element removed (or, if empty, one added): same content otherwise
 fn off_by_one(v: &[String], grow: bool) -> Vec<String> {
     let mut w = v.to_vec();
@@ -608,6 +656,12 @@ impl Prop for C13 {
             Lane::new("robustness", tier.pick(80_000, 1_500_000))
                 .cap(tier.pick(150, 900))
                 .floor(tier.pick(12_000, 250_000)),
+            // the generators of both lanes with one dimension (sequences per case, words per
+            // sequence or characters per word) 10 / 50 / 250 times bigger, and sequences beyond
+            // 2^16 characters against short ones
+            Lane::new("large", tier.pick(1_600, 32_000))
+                .cap(tier.pick(150, 1200))
+                .floor(tier.pick(100, 2_000)),
         ]
     }
 
@@ -659,7 +713,21 @@ impl Prop for C13 {
     }
 
     fn generate(rng: &mut Rng, _tier: Tier, lane: &str) -> Case {
-        let (input, pred, target, class) = if lane == "robustness" {
+        // `large` lane: the multiplier of the case goes to exactly one dimension
+        let k = gen::scale();
+        gen::set_scale(1);
+        DIMS.with(|d| {
+            d.set(match (k, rng.random_range(0..3)) {
+                (1, _) => (1, 1, 1),
+                (_, 0) => (k, 1, 1),
+                // (strings beyond ~3000 characters cost the quadratic metrics CPU-minutes)
+                (_, 1) => (1, k.min(100), 1),
+                _ => (1, 1, k.min(100)),
+            })
+        });
+        let (input, pred, target, class) = if k == 250 && rng.random_bool(0.3) {
+            gen_long_vs_short(rng)
+        } else if lane == "robustness" || (k > 1 && rng.random_bool(0.2)) {
             gen_robust(rng)
         } else {
             match rng.random_range(0..100) {
@@ -669,7 +737,7 @@ impl Prop for C13 {
                 _ => gen_totality(rng),
             }
         };
-        let nb = if rng.random_range(0..10) == 0 { 0 } else { rng.random_range(1..=12) };
+        let nb = if rng.random_range(0..10) == 0 { 0 } else { rng.random_range(1..=12 * dims().0) };
         let pt = [0.1, 0.5, 0.9][rng.random_range(0..3)];
         let bools_t: Vec<bool> = (0..nb).map(|_| rng.random_bool(pt)).collect();
         let mut bools_p: Vec<bool> = bools_t
